@@ -38,6 +38,12 @@ def gen(ctx):
     for _ in range(ctx.n(300, 7000)):
         spec = M.random_spec(rng, NAMES)
         dm = M.in_domain_dm(rng, spec, max_m=ctx.n(9, 14), max_n=6, ties=rng.choice([0.0, 0.2, 0.5]), dups=0.1)
+        if dm["family"] == "dyadic" and rng.random() < 0.15:
+            # large common offset, small spread (figures around 2^27 differing by units): everything stays exact in
+            # binary64 when differences are taken first, while expanded squares would cancel catastrophically
+            off = float(2 ** 27)
+            dm["matrix"] = [[x + off for x in row] for row in dm["matrix"]]
+            dm["int_matrix"] = False
         if rng.random() < 0.2:
             # the same problem in very small / very large units (exact power of two): "up to rounding" is relative to the scale
             k = 2.0 ** rng.choice([-40, -30, 30, 40])
@@ -55,7 +61,9 @@ def gen(ctx):
             dm["objectives"][rng.randrange(len(dm["objectives"]))] = -1
         elif how in ("zero", "negative"):
             i, j = rng.randrange(len(dm["matrix"])), rng.randrange(len(dm["objectives"]))
-            dm["matrix"][i][j] = 0.0 if how == "zero" else -abs(dm["matrix"][i][j]) - 0.125
+            tiny = rng.random() < 0.4  # a negative value is a negative value, however small
+            dm["matrix"][i][j] = 0.0 if how == "zero" else (-(2.0 ** -rng.randint(30, 60)) if tiny else -abs(dm["matrix"][i][j]) - 0.125)
+            dm["int_matrix"] = False
         cases.append({"kind": "refusal", "spec": spec, "dm": dm, "how": how})
     return cases
 
@@ -199,7 +207,10 @@ def exact(case):
                 continue
             sim.append(D(dw) / D(tot) if not isinstance(tot, Fraction) else dw / tot)
             ratio_c = n * vmax / float(tot if metric != "sqeuclidean" else D(tot).sqrt())
-            cond = max(cond, ratio_c ** (2 if metric == "sqeuclidean" else 1))
+            if dm.get("family") != "dyadic":
+                # arbitrary doubles: v = a*w is rounded, so differences v - ideal carry an error relative to |v|;
+                # dyadic data (exact products and differences) gets no such allowance
+                cond = max(cond, ratio_c ** (2 if metric == "sqeuclidean" else 1))
         out["similarity"] = (sim, cond)
         out["ideal"] = (ideal, vmax or 1.0)
         out["anti_ideal"] = (anti, vmax or 1.0)
